@@ -266,10 +266,11 @@ def _member_wrong(v):
         a = app(v, "cmp:" + op)
         if a and len(a) == 2:
             for x, z in ((a[0], a[1]), (a[1], a[0])):
-                if const_of(z) == 0:
-                    h = head(x) or ""
-                    if h.startswith("mask:") and (op == "Eq" or h != "mask:BitAnd"):
-                        return f"{h[5:]} ... {op} 0"
+                h = head(x) or ""
+                if const_of(z) == 0 and h.startswith("mask:") and (op == "Eq" or h != "mask:BitAnd"):
+                    return f"{h[5:]} ... {op} 0"
+                if const_of(z) not in (None, 0) and h.startswith("mask:"):
+                    return f"{h[5:]} ... {op} {const_of(z)}"          # compared with a non-zero constant: not `some bit of the mask is set`
     return None
 
 
@@ -582,6 +583,8 @@ def r2_mksetpv(ctx):
                     b = app(c, "mask:BitAnd") if c is not None else None
                     if b:
                         continue        # the mask-level shortcut `minor & ~major` is judged with the refusal
+                    if ic is not None and not same(ic.get("obj"), F.sym(nm)):
+                        continue        # isinstance(<something else>, nm): not a test of the argument's type
                     odd = (p, node)
                 else:
                     isstr = d if cls == "str" else (not d)     # the argument is a set name or an integer mask
@@ -768,6 +771,15 @@ def _clamp_kind(x, ss, arrays):
         if k is not None and k >= 1:
             return "raw"            # out of range for a table of k keys or fewer
         return None
+    if not is_unknown(x) and not isinstance(x, tuple):
+        # index - (index == size)  /  index - (index >= size): a boolean subtracted as 0 / 1
+        canon, pol, _ = norm_atom(ss - x)
+        if canon is not None:
+            g = app(canon, "cmp:Gt")
+            if (eq_size(canon) and pol) or (g and is_size(g[0]) and same(g[1], ss) and not pol):
+                return "clamped"
+            if g and same(g[0], ss) and is_size(g[1]) and pol:
+                return "raw"            # index - (index > size): never subtracts, == size stays
     c = _is_call(x, ("minimum", "fmin"), ["x1", "x2"])
     if c and ((same(c.get("x1"), ss) and is_last(c.get("x2"))) or (same(c.get("x2"), ss) and is_last(c.get("x1")))):
         return "clamped"
@@ -838,6 +850,12 @@ def _analyse_lookup1(p, obs):
     L.obs = obs
     arrays = [L.I, L.H, L.base]
     uses = find(obs, lambda x: bool(app(x, "idx")) and same(app(x, "idx")[0], L.I) and contains(app(x, "idx")[1], L.ss))
+    if not uses:
+        # a regime that only looks at the keys in sorted order (sorted_keys[index], e.g. on the way to the raise): the positions it would return
+        # are sorter[that index]
+        srt = [F.fn("idx", L.base, L.I)] + ([L.H] if L.sorted_copy else [])
+        keys = find(obs, lambda x: bool(app(x, "idx")) and any(same(app(x, "idx")[0], k) for k in srt) and contains(app(x, "idx")[1], L.ss))
+        uses = [F.fn("idx", L.I, app(x, "idx")[1]) for x in keys]
     kinds = {}
     for u in uses:
         kinds.setdefault(_clamp_kind(app(u, "idx")[1], L.ss, arrays), u)
@@ -1067,11 +1085,24 @@ def _r3_mkdofpv(ctx):
         k = const_of((v - _col(X, 1)) / _col(X, 0)) if X is not None and not is_unknown(v) else None
         return k if k is not None and same(v, _col(X, 0) * k + _col(X, 1)) else None
 
+    def pure(v, is_sel):
+        """v is plain arithmetic (+ - * /) over selections of one table: every atom satisfies is_sel.  Such a key that is not id*k + component is
+        provably another function of the table than the documented (id, component) pair; a key built with other operations (shifts, |, calls)
+        is something this rule cannot judge"""
+        if v is None or is_unknown(v) or isinstance(v, tuple):
+            return False
+        atoms = [F.Rat(F.Poly.atom(a)) for a in sorted(v.n.atoms() | v.d.atoms())]
+        return bool(atoms) and all(is_sel(a) for a in atoms)
+
     ks = {mult(L.N, D) for p, L, D in rows}
     kN = ks.pop() if len(ks) == 1 else None
     okN = kN is not None and kN > 6          # components 0..6 must not run into the id
     okH = True
-    enc_odd = None if kN is not None or len(ks) > 1 else "requested keys: " + _show(rows[0][1].N)       # not of the form id*k + component at all
+    enc_odd = None
+    if kN is None and len(ks) <= 1:
+        N0, D0 = rows[0][1].N, rows[0][2]
+        if not (D0 is not None and pure(N0, lambda a: bool(app(a, "idx")) and same(app(a, "idx")[0], D0))):
+            enc_odd = "requested keys: " + _show(N0)         # not arithmetic on the request's columns: cannot be judged
     part_ok, part_seen, part_bad, part_odd = True, False, None, None
     uset = F.sym(fn.args.args[0].arg)
     nasset = fn.args.args[1].arg
@@ -1081,7 +1112,7 @@ def _r3_mkdofpv(ctx):
         if tab:
             U = app(tab[0], "idx")[0]
             good = kN is not None and same(H, _col(U, 0) * kN + _col(U, 1))
-            if not good and kN is not None and mult(H, U) is None:
+            if not good and kN is not None and mult(H, U) is None and not pure(H, lambda a: bool(app(a, "idx")) and same(app(a, "idx")[0], U)):
                 enc_odd = enc_odd or "table keys: " + _show(H)
             # a plain array table has no set information: its rows are the p-set, any other request is refused
             isp = _is_literal(p, nasset, "'p'")
@@ -1094,7 +1125,8 @@ def _r3_mkdofpv(ctx):
             ids = [x for x in lv if sym_of(_is_call(x, ("get_level_values",), ["self", "level"])["level"]) == "'id'"]
             dfs = [x for x in lv if sym_of(_is_call(x, ("get_level_values",), ["self", "level"])["level"]) == "'dof'"]
             good = len(ids) == 1 and len(dfs) == 1 and kN is not None and same(H, ids[0] * kN + dfs[0])
-            if not good and kN is not None and not (len(ids) == 1 and len(dfs) == 1 and const_of((H - dfs[0]) / ids[0]) is not None):
+            if not good and kN is not None and not (len(ids) == 1 and len(dfs) == 1 and const_of((H - dfs[0]) / ids[0]) is not None) \
+                    and not pure(H, lambda a: _is_call(a, ("get_level_values",), ["self", "level"]) is not None):
                 enc_odd = enc_odd or "table keys: " + _show(H)
             U = None
             if good:
@@ -1213,6 +1245,8 @@ def _r3_mat_intersect(ctx):
             if a and const_of(a[1]) == 0 and app(a[0], "nonzero"):
                 m = app(a[0], "nonzero")[0]
                 return "match" if L.is_match(m) else ("mismatch" if L.is_mismatch(m) else None)
+            if a and const_of(a[1]) not in (None, 0, -1) and app(a[0], "nonzero") and L.is_match(app(a[0], "nonzero")[0]):
+                return "mismatch"           # nonzero() of a vector has one entry: any index but 0 is not the match index
             return None
 
         exact_ok, trim_ok, order_ok = True, True, True
@@ -1417,6 +1451,9 @@ def _cross_rows_wrong(v):
         g1, g2 = app(a[1], "gen"), app(a[2], "gen")
         if g1 and g2 and len(g1) == 1 and len(g2) == 1 and same(a[0], F.fn("tuple", F.sym("@v1"), F.sym("@v0"))):
             return "rows [inner, outer]: the loops / columns are exchanged"
+        e = app(a[0], "tuple")
+        if g1 and g2 and len(g1) == 1 and len(g2) == 1 and e and len(e) == 2:
+            return "the rows are not [outer item, inner item]: " + _show(a[0])
         return None
     sc = split_call(v)
     if sc is not None and sc[0] == "np.column_stack" and len(sc[1]) == 1 and not sc[2]:
@@ -1427,9 +1464,17 @@ def _cross_rows_wrong(v):
 
 
 def r4_expanddof(ctx):
-    fn, paths = explore(ctx, N2P, "expanddof")
+    fn = raw_func(ctx, N2P, "expanddof")
     dofp = fn.args.args[0].arg
     gop = fn.args.args[1].arg if len(fn.args.args) > 1 else "grids_only"
+    # evaluated once per value of the flag (pinned to 1 / 0): however the flag selects the component list - a branch, a conditional expression,
+    # bool() / int() / arithmetic on it - each evaluation sees one constant list
+    paths, flag_of = [], {}
+    for g in (True, False):
+        _, ps = explore(ctx, N2P, "expanddof", pinned={gop: F.const(int(g))})
+        for q in ps:
+            flag_of[id(q)] = g
+        paths += ps
     rets = [p for p in paths if p.returned]
     kinds = []
     for p in rets:
@@ -1438,6 +1483,8 @@ def r4_expanddof(ctx):
             k = "unknown"
         elif is_empty(v):
             k = "empty"
+        elif const_of(v) is not None:
+            k = "filled"                # np.zeros / np.ones of a shape that is not known to be empty
         elif find(v, lambda x: head(x) == "call:str"):
             k = "digits"
         elif _cross_rows(v) is not None:
@@ -1493,23 +1540,24 @@ def r4_expanddof(ctx):
     for p, k, v in ids:
         X, R = _cross_rows(v)
         ok = sym_of(strip(X)) == dofp
-        go = _flag(p, gop)
-        if _range_of(R) is None or go == "odd":
-            odd = odd or (p, R)         # the component list is not a constant range / the flag is tested in an unknown form: nothing to compare
+        g = flag_of[id(p)]
+        if _range_of(R) is None:
+            odd = odd or (p, R)         # the component list is not a constant range: nothing to compare
             continue
-        for g in (True, False):
-            if go is not None and go != g:
-                continue
-            seen.add(g)
-            if not (ok and _range_of(R) == ((1, 7) if g else (0, 7))):
-                good = False
-                det = det or {"regime": p.describe(), "grids_only": g, "returned": _show(v)}
-    if odd is not None:
-        ctx.error("expanddof: the component list of the id expansion (or the test on the flag that selects it) is not recognised (rule knows range / "
-                  "np.arange with constant bounds; the flag itself, not, bool(), is / == True / False)",
-                  odd[0].ret_node, {"regime": odd[0].describe(), "components": _show(odd[1])})
+        seen.add(g)
+        if not (ok and _range_of(R) == ((1, 7) if g else (0, 7))):
+            good = False
+            det = det or {"regime": p.describe(), "grids_only": g, "returned": _show(v)}
+    if odd is not None and good:
+        ctx.error("expanddof: the component list of the id expansion is not recognised (rule knows range / np.arange with constant bounds, for "
+                  "each value of the flag)", odd[0].ret_node,
+                  {"regime": odd[0].describe(), "grids_only": flag_of[id(odd[0])], "components": _show(odd[1])})
     else:
         ctx.check(good and seen == {True, False}, "expanddof: 1-D input expands every id, in request order, to the rows [id, c] for c = 1..6 (grids_only) or 0..6", fn, det)
+    # an empty request: no rows
+    filled = [t for t in kinds if t[1] == "filled"]
+    ctx.check(not filled, "expanddof: no regime returns a constant-filled array (an empty request gives an array without rows)",
+              (filled[0][0].ret_node if filled else None) or fn, None if not filled else {"regime": filled[0][0].describe(), "returned": _show(filled[0][2])})
 
 
 def r5_index2slice(ctx):
@@ -1522,11 +1570,14 @@ def r5_index2slice(ctx):
     runs, singles = [], []
     for p in paths:
         c = split_call(p.ret) if p.returned and not isinstance(p.ret, tuple) else None
-        if c and c[0] == "slice" and not c[2]:
-            if len(c[1]) == 3:
-                runs.append((p, c[1]))
-            elif len(c[1]) == 2:
-                singles.append((p, c[1]))
+        if c and c[0] == "slice" and not c[2] and 1 <= len(c[1]) <= 3:
+            # slice(stop) / slice(start, stop) / slice(start, stop, step): one triple; a step of None is no step
+            a, b, st = {1: [NONE, c[1][0], NONE], 2: list(c[1]) + [NONE], 3: list(c[1])}[len(c[1])]
+            if sym_of(st) != "None":
+                runs.append((p, [a, b, st]))
+            elif sym_of(a) != "None" and const_of(a) is None:
+                singles.append((p, [a, b]))
+            # a slice without start and step (slice(0), slice(None, 0)) is the answer for an empty vector: not a run, not a single entry
     if not runs or not singles:
         raise AnchorError("index2slice: slice(start, stop, step) / slice(start, stop) returns")
 
@@ -1618,11 +1669,14 @@ RULES = [
     ("C18-R1b", r1b_producer, 5),
     ("C18-R2", r2_mksetpv, 6),
     ("C18-R3", r3_checked_lookup, 23),
-    ("C18-R4", r4_expanddof, 4),
+    ("C18-R4", r4_expanddof, 5),
     ("C18-R5", r5_index2slice, 3),
 ]
 LEVEL = "other"
-EXPLANATION = ("Static: the USET bit-mask table is constant-folded from mkusetmask's source and checked against the documented set hierarchy for "
+EXPLANATION = ("Static: the USET bit-mask table is the value mkusetmask returns, constant-folded from the source however it is built (dict literal, "
+               "module-level table, loops / reduce over data tables, helpers: verifier/c18_fold.py, a white-listed evaluator of integer / string / "
+               "container code); mkusetmask(name) and mkusetmask('x+y') are folded the same way and compared with the table entry / the OR of the "
+               "entries. The table is checked against the documented set hierarchy for "
                "every base/superset pair (disjointness, containment <=> membership, private bits per the NDDL table, no private bit leaking into an "
                "unrelated set) - which decides membership tests for every possible USET word. The other rules evaluate each anchored function on "
                "symbols once per regime (combination of truth values of its branch tests; private helpers are followed) and decide on the values "
@@ -1643,6 +1697,8 @@ MANIFEST = {
             "index2slice beyond its stop boundary and even-spacing test.",
     "note": "Trusted: CPython ast; the documented Nastran set hierarchy (Quick Reference Guide) embedded in the checker. Numpy semantics of &, !=, boolean "
             "indexing, argsort, searchsorted (left insertion point, result in 0..size), nonzero, result_type, slice.",
-    "technique": "constant folding of the mask table + exhaustive lattice check over all set pairs; value-level evaluation of each anchored function per "
-                 "regime (verifier/c18_sem.py on e2_eval.AutoEvaluator) with def-use followed on values, not on names or source text",
+    "technique": "constant folding of the value mkusetmask returns (verifier/c18_fold.py: static evaluation of the parsed source over integers, strings and "
+                 "containers; nothing of the package is imported or run) + exhaustive lattice check over all set pairs; value-level evaluation of each "
+                 "anchored function per regime (verifier/c18_sem.py on e2_eval.AutoEvaluator) with def-use followed on values, not on names or source "
+                 "text; the functions are read as written (no renaming / temporary-inlining normalisation)",
 }
